@@ -35,7 +35,7 @@ REQUIRED = ['receivers_with_group_metadata', 'axes_with_partly_empty_metadata', 
             'isolation_batteries', 'fault_injections', 'layout_csc_seen',
             'layout_unsorted_seen', 'args_tables_checked',
             'op_filter', 'op_transform', 'op_norm', 'op_pa', 'op_rankdata',
-            'op_remove_empty', 'op_update_ids', 'op_sort', 'op_sort_order',
+            'op_remove_empty', 'op_update_ids', 'op_align_to_dataframe', 'op_sort', 'op_sort_order',
             'op_transpose', 'op_copy', 'op_head', 'op_subsample',
             'op_partition', 'op_collapse', 'op_merge', 'op_concat',
             'op_align_to']
@@ -43,7 +43,10 @@ REQUIRED = ['receivers_with_group_metadata', 'axes_with_partly_empty_metadata', 
 INPLACE_OPS = ['filter', 'transform', 'norm', 'pa', 'rankdata',
                'remove_empty', 'update_ids']
 NEW_OPS = ['sort', 'sort_order', 'transpose', 'copy', 'head', 'subsample',
-           'partition', 'collapse', 'merge', 'concat', 'align_to']
+           'partition', 'collapse', 'merge', 'concat', 'align_to',
+           # not in the property's list, but documented to return a filtered
+           # *table* next to the filtered frame: the same promise
+           'align_to_dataframe']
 
 
 def plan(tier):
@@ -318,6 +321,21 @@ def build_call(ctx, r, spec, op, axis):
         aslist = r.random() < .5
         return (lambda t, ip: t.concat([other] if aslist else other,
                                        axis=axis)), args, tables
+    if op == 'align_to_dataframe':
+        # the table cut down to the ids a metadata frame has rows for (the
+        # frame covers every id, in another order and with rows of its own,
+        # or a part of them)
+        import pandas as pd
+        if r.random() < .6:
+            idx = list(ids) + ['not in the table']
+        else:
+            idx = r.sample(ids, r.randint(1, len(ids)))
+        r.shuffle(idx)
+        df = pd.DataFrame({'grp': ['g%d' % (k % 2) for k in range(len(idx))]},
+                          index=idx)
+        args = {'frame_index': idx}
+        return (lambda t, ip: t.align_to_dataframe(df, axis=axis)[0]), \
+            args, tables
     if op == 'align_to':
         osp = second_table(ctx, r, spec, 'permuted')
         other = gen.apply_layout(ctx.biom, osp, r.choice(gen.LAYOUTS[:6]), r)
@@ -345,7 +363,8 @@ def _writes_in_place(v, i, m):
 
 def run_case(ctx, index):
     r = ctx.rng(index)
-    op = (INPLACE_OPS + NEW_OPS)[index % 18] if r.random() < .7 else \
+    op = (INPLACE_OPS + NEW_OPS)[index % len(INPLACE_OPS + NEW_OPS)] \
+        if r.random() < .7 else \
         r.choice(INPLACE_OPS + NEW_OPS)
     vclasses = ['count', 'dyadic', 'frac'] if op in ('norm', 'subsample',
                                                      'collapse') else None
